@@ -305,7 +305,7 @@ def exhaustive_builtin(tier):
                 if tier == "thorough" and len(sub) >= 2:
                     cmds.append([name, [t for i in reversed(sub) for t in fl[i]]])
         for i in range(0, len(cmds), 4):
-            cases.append({"user": [], "cmds": cmds[i:i + 4]})
+            cases.append({"user": [], "cmds": cmds[i:i + 4], "e2e": E2E_GUARDS})
     return cases
 
 
@@ -335,7 +335,7 @@ def exhaustive_user(tier):
         for sub in itertools.combinations(range(len(EXH_FLAGS)), k):
             cmds.append([["cc0", "cc1", "/opt/cc2"][len(cmds) % 3], [t for i in sub for t in EXH_FLAGS[i]]])
     for i in range(0, len(cmds), 4):
-        cases.append({"user": EXH_USER, "cmds": cmds[i:i + 4]})
+        cases.append({"user": EXH_USER, "cmds": cmds[i:i + 4], "e2e": E2E_GUARDS})
     return cases
 
 
@@ -350,6 +350,52 @@ def alias_cases():
         user = [["cc0", {"alias_of": a}], ["cc1", {"alias_of": b}], ["cc2", {"alias_of": c}]]
         cases.append({"user": user, "cmds": [["cc0", ["-fopenmp", "-DA"]], ["bin/cc1", ["-fopenmp"]], ["cc2", []]]})
     return cases
+
+
+# end-to-end block: guards of the generated source file
+E2E_GUARDS = [["def", "_OPENMP"], ["def", "__SYCL_DEVICE_ONLY__"], ["def", "SYCL_LANGUAGE_VERSION"], ["def", "__NVCC__"],
+              ["def", "__CUDA_ARCH__"], ["ge", "__CUDA_ARCH__", 750], ["ge", "__CUDA_ARCH__", 900], ["def", "__NVPTX__"],
+              ["def", "__SPIR__"], ["def", "A"], ["def", "IMPL"], ["def", "M0"], ["def", "M1"], ["def", "P0"], ["def", "P1"],
+              ["def", "P7"], ["def", "SEVEN"], ["def", "NEVER"]]
+
+
+def e2e_source(guards):
+    lines, code_line = ["int always;"], []
+    for i, g in enumerate(guards):
+        if g[0] == "def":
+            lines.append(f"#ifdef {g[1]}")
+        else:
+            lines.append(f"#if defined({g[1]}) && {g[1]} >= {g[2]}")
+        lines.append(f"int guarded_{i};")
+        code_line.append(len(lines))
+        lines.append("#endif")
+    return "\n".join(lines) + "\n", code_line
+
+
+def guard_holds(g, defines):
+    for d in defines:
+        name, _, val = d.partition("=")
+        if name != g[1]:
+            continue
+        if g[0] == "def":
+            return True
+        try:
+            if int(val) >= g[2]:
+                return True
+        except ValueError:
+            pass
+    return False
+
+
+def e2e_expected(results, guards):
+    """results: canonical per-command results (["Ok", configs, events] | ["Err", kind])"""
+    entries = []
+    for r in results:
+        if r[0] != "Ok":
+            return ["Err", r[1]]
+        entries += [list(c) for c in r[1]]
+    att = [any(guard_holds(g, c[1]) for c in entries) for g in guards]
+    return ["Ok", sorted(entries), att]
 
 
 _memo_installed = False
@@ -481,6 +527,10 @@ class C12(Check):
                 except Exception as e:  # noqa
                     res = ["Err", type(e).__name__]
                 out.append([self._status(init_records or cap.records), res])
+            if case.get("e2e"):
+                config._compilers = None
+                with contextlib.redirect_stderr(io.StringIO()):
+                    out.append(["e2e", self._e2e(case, root)])
         finally:
             os.chdir(cwd)
             lg.removeHandler(cap)
@@ -489,6 +539,50 @@ class C12(Check):
             config._compilers = None
         self._impl_cache[k] = out
         return out
+
+    @staticmethod
+    def _e2e(case, root):
+        """config.load_database + finder.find on one source file compiled by ALL commands of the case"""
+        import codebasin
+        from codebasin import config, finder, preprocessor
+        guards = case["e2e"]
+        text, code_line = e2e_source(guards)
+        (root / "src").mkdir(exist_ok=True)
+        src = root / "src" / "main.c"
+        src.write_text(text)
+        for d in (root, root / "src"):
+            for h in FILES + ["p7.h"]:
+                (d / h).write_text("")
+        db = [{"directory": str(root), "file": "src/main.c", "arguments": [a0] + list(argv)} for a0, argv in case["cmds"]]
+        (root / "compile_commands.json").write_text(json.dumps(db))
+        flog = logging.getLogger("codebasin")
+        old = flog.level
+        flog.setLevel(logging.CRITICAL)
+        try:
+            try:
+                entries = config.load_database(str(root / "compile_commands.json"), str(root))
+            except SystemExit:
+                return ["Err", "SystemExit"]
+            except Exception as e:  # noqa
+                return ["Err", type(e).__name__]
+            obs = []
+            for e in entries:
+                if e["file"] != str(src):
+                    return ["Err", "WrongFile", e["file"]]
+                obs.append([e["pass_name"], list(e["defines"]), [os.path.relpath(p, root) for p in e["include_paths"]],
+                            list(e["include_files"])])
+            try:
+                state = finder.find(str(root), codebasin.CodeBase(root), {"P": entries})
+            except Exception as e:  # noqa
+                return ["Err", "find:" + type(e).__name__]
+            amap = state.get_map(str(src))
+            used = set()
+            for node in state.get_tree(str(src)).walk():
+                if isinstance(node, preprocessor.CodeNode) and "P" in amap[node]:
+                    used.update(node.lines)
+            return ["Ok", sorted(obs), [ln in used for ln in code_line], 1 in used]
+        finally:
+            flog.setLevel(old)
 
     @staticmethod
     def _status(records):
@@ -565,9 +659,18 @@ class C12(Check):
             chosen.append(pick)
         return ["Ok", sorted(chosen), sorted(res[2])]
 
+    def _with_e2e(self, case, out):
+        if case.get("e2e"):
+            exp = e2e_expected([r for _, r in out], case["e2e"])
+            if exp[0] == "Ok":
+                exp[1] = sorted([pn, d, [os.path.normpath(x) for x in p], f] for pn, d, p, f in exp[1])
+                exp.append(True)
+            out = out + [["e2e", exp]]
+        return out
+
     def model_view(self, case, ans):
         ia = self._cached_impl(case)
-        return [[st, self._canon(res, i[1])] for (st, res, _, _, _, _), i in zip(ans, ia)]
+        return self._with_e2e(case, [[st, self._canon(res, i[1])] for (st, res, _, _, _, _), i in zip(ans, ia)])
 
     def legacy_view(self, case, ans):
         ia = self._cached_impl(case)
@@ -593,7 +696,7 @@ class C12(Check):
             d = self.hist.setdefault("cmd_spec_na_by_block", {}).setdefault(b, [0, 0])
             d[0] += na
             d[1] += len(out)
-        return out
+        return self._with_e2e(case, out)
 
     def impl_view_for_spec(self, case, ia):
         return [[st, res] for st, res in ia]
@@ -606,6 +709,13 @@ class C12(Check):
 
     def nontrivial(self, case, ia):
         nt = False
+        if case.get("e2e") and ia and ia[-1][0] == "e2e":
+            self.hist["e2e_cases"] = self.hist.get("e2e_cases", 0) + 1
+            r = ia[-1][1]
+            if r[0] == "Ok":
+                self.hist["e2e_entries"] = self.hist.get("e2e_entries", 0) + len(r[1])
+                self.hist["e2e_guarded_lines_attributed"] = self.hist.get("e2e_guarded_lines_attributed", 0) + sum(r[2])
+                self.hist["e2e_guarded_lines"] = self.hist.get("e2e_guarded_lines", 0) + len(r[2])
         for (st, res), (a0, argv) in zip(ia, case["cmds"]):
             self.hist["commands"] += 1
             name = a0.rsplit("/", 1)[-1]
@@ -636,6 +746,9 @@ class C12(Check):
 
     def shrink(self, case, still_fails):
         user, cmds = case["user"], case["cmds"]
+        if case.get("e2e"):
+            inner = still_fails
+            still_fails = lambda c: inner(dict(c, e2e=case["e2e"]))  # noqa
         cmds = common.shrink_list(cmds, lambda cs: bool(cs) and still_fails({"user": user, "cmds": cs}))
         user = common.shrink_list(user, lambda us: still_fails({"user": us, "cmds": cmds}))
         for i in range(len(cmds)):
@@ -655,7 +768,7 @@ class C12(Check):
                     d = dict(d)
                     d[sect] = xs
                     user = user[:i] + [[name, d]] + user[i + 1:]
-        return {"user": user, "cmds": cmds}
+        return dict({"user": user, "cmds": cmds}, **({"e2e": case["e2e"]} if case.get("e2e") else {}))
 
     def extra_coverage(self):
         return {"input_distribution": self.hist}
